@@ -1,9 +1,15 @@
 package checks
 
 import (
+	"context"
+	"errors"
 	"fmt"
 	"math/rand/v2"
 	"sort"
+	"strings"
+
+	"github.com/DrmagicE/gmqtt/pkg/codes"
+	"github.com/DrmagicE/gmqtt/server"
 
 	"verifsim/mqttc"
 	"verifsim/sim"
@@ -12,10 +18,32 @@ import (
 // C04: inbound QoS 2 is exactly-once; every QoS>0 packet gets its matching ack.
 
 func init() {
-	register(&Check{ID: "C04", Gen: genC04, Oracle: oracleC04,
+	register(&Check{ID: "C04", Gen: genC04, Oracle: oracleC04, Setup: c04setup,
 		Nontrivial: func(p *sim.Plan, out *sim.Outcome) bool {
 			return out.Faults["client.dup_publish"]+out.Faults["client.retransmit_publish"]+out.Faults["net.cut"] > 0
 		}})
+}
+
+// c04setup installs an OnMsgArrived hook that refuses the messages whose payload says so ("rej<code>-…"): the
+// refused PUBLISH is answered with a failing PUBACK / PUBREC, is forwarded to nobody, and a QoS 2 identifier it
+// used is free again at once.
+func c04setup(p *sim.Plan) *sim.Setup {
+	return &sim.Setup{EditHooks: func(w *sim.World, n int, h *server.Hooks) {
+		h.OnMsgArrived = func(ctx context.Context, client server.Client, req *server.MsgArrivedRequest) error {
+			pl := string(req.Publish.Payload)
+			switch {
+			case strings.HasPrefix(pl, "rej80-"):
+				return errors.New("refused by the hook") // a plain error: reason code 0x80
+			case strings.HasPrefix(pl, "rej80c-"):
+				return codes.NewError(codes.UnspecifiedError)
+			case strings.HasPrefix(pl, "rej87-"):
+				return codes.NewError(codes.NotAuthorized)
+			case strings.HasPrefix(pl, "rej97-"):
+				return codes.NewError(codes.QuotaExceeded)
+			}
+			return nil
+		}
+	}}
 }
 
 func genC04(rng *rand.Rand, tier string) *sim.Plan {
@@ -61,6 +89,11 @@ func genC04(rng *rand.Rand, tier string) *sim.Plan {
 					op := newMsg(2)
 					op.PID = 1000 + pid
 					op.Repeat = rng.IntN(3)
+					if p.Clients[i].Ver == 5 && chance(rng, 0.25) {
+						// refused by the hook: the identifier is free again, the next flow re-uses it
+						op.Payload = pick(rng, []string{"rej80-", "rej80c-", "rej87-", "rej97-"}) + op.Payload
+						op.Repeat = 0
+					}
 					ph.Ops = append(ph.Ops, op)
 					if chance(rng, 0.3) {
 						ph.Ops = append(ph.Ops, newMsg(byte(rng.IntN(2))))
@@ -196,7 +229,7 @@ func oracleC04(p *sim.Plan, out *sim.Outcome) []sim.Violation {
 					}
 				case mqttc.PUBACK, mqttc.PUBCOMP:
 					gotAck[ak{r.Conn, r.Pkt.Type, r.Pkt.PID}]++
-					if r.Pkt.Type == mqttc.PUBACK {
+					if r.Pkt.Type == mqttc.PUBACK && r.Pkt.Code < 0x80 {
 						if pl, ok := lastPayload[[2]int{r.Conn, -int(r.Pkt.PID)}]; ok {
 							def[key{pl, connEpoch[r.Conn]}] = true
 						}
@@ -272,6 +305,12 @@ func oracleC04(p *sim.Plan, out *sim.Outcome) []sim.Violation {
 		for _, pl := range pls {
 			n := delivered[pl]
 			q := payloadQoS[pl]
+			if strings.HasPrefix(pl, "rej") {
+				if n > 0 {
+					vs = append(vs, viol("C04", "once", "refused-forwarded", "message %q, refused by the OnMsgArrived hook, was forwarded %d times", pl, n))
+				}
+				continue
+			}
 			if q == 0 {
 				continue
 			}
